@@ -20,8 +20,10 @@
 EXTENDS MiniPyMon
 VARIABLES lastStk,   \* per activation of the call stack: last node executed (0 = entry/arguments node)
           resync,    \* per activation: the next node is reached by an unmodelled (exempt) transfer
-          bad        \* the first distinct violation reports of this execution (MiniPyMon!Note)
-mvars == <<vars, lastStk, resync, bad>>
+          bad,       \* the first distinct violation reports of this execution (MiniPyMon!Note)
+          jsrc,      \* the node that initiated the most recent jump (return / break / continue), 0 = none
+          jres       \* the kind of a jump that a finally block has just resumed, until the next node executes ("" = none)
+mvars == <<vars, lastStk, resync, bad, jsrc, jres>>
 
 Edges(f)  == {<<e[1], e[2]>> : e \in Range(G(f).edges)}
 ExitS(f)  == Range(G(f).exit)
@@ -43,7 +45,7 @@ StaticBad(f) ==
 StaticReport == LET fs == {f \in 1..Len(P.fns) : StaticBad(f) # ""} IN
                 IF fs = {} THEN "" ELSE LET f == CHOOSE f \in fs : TRUE IN ToString(<<"static", f, StaticBad(f)>>)
 
-MInit == Init /\ lastStk = <<0>> /\ resync = <<FALSE>> /\ bad = Reports0(StaticReport)
+MInit == Init /\ lastStk = <<0>> /\ resync = <<FALSE>> /\ bad = Reports0(StaticReport) /\ jsrc = 0 /\ jres = ""
 
 MStep ==
   /\ Step
@@ -64,14 +66,17 @@ MStep ==
          \* the jump (return / break / continue) that is waiting in the innermost finally block, "" if none: names the
          \* cause of a missing edge when the last executed node is a statement of an inner finally block
          pidx == {i \in 1..Len(ctrl) : ctrl[i].k = "finally" /\ ctrl[i].comp # NoComp}
-         pend == IF pidx = {} THEN "" ELSE ctrl[CHOOSE i \in pidx : \A j \in pidx : i >= j].comp[1]
+         pend == IF pidx # {} THEN ctrl[CHOOSE i \in pidx : \A j \in pidx : i >= j].comp[1] ELSE jres
+         isJump == how' \in {"ret", "brk", "cnt"}
          upd  == [lastStk EXCEPT ![nc] = lastNow]
          rs1  == [resync EXCEPT ![nc] = IF judged THEN implicitNow ELSE (@ \/ implicitNow)]
      IN
      /\ bad' = Note(bad,
-               IF edgeBad THEN ToString(<<"edge", fn, lastStk[nc], n, pend>>)
+               IF edgeBad THEN ToString(<<"edge", fn, lastStk[nc], n, pend, jsrc>>)
                ELSE IF exitBad THEN ToString(<<"exit", fn, lastNow, how'>>)
                ELSE "")
+     /\ jsrc' = IF isJump /\ n # 0 THEN n ELSE jsrc
+     /\ jres' = IF n # 0 THEN "" ELSE IF isJump THEN how' ELSE jres
      /\ lastStk' = IF nc2 > nc THEN Append(upd, 0) ELSE SubSeq(upd, 1, nc2)
      /\ resync'  = IF nc2 > nc THEN Append(rs1, FALSE)
                    ELSE IF nc2 < nc /\ how' = "exc" /\ nc2 > 0
